@@ -68,6 +68,16 @@ func FindDefinedClassFrame(frame, class string) string {
 	return ""
 }
 
+// LookupDefinedClassFrame looks class up lexically like FindDefinedClassFrame
+// and also says whether a definition was found (the top level included).
+func LookupDefinedClassFrame(frame, class string) (string, bool) {
+	if found := FindDefinedClassFrame(frame, class); found != "" {
+		return found, true
+	}
+
+	return "", DefinedClassTable[DefinedClass{frame: "", class: class}]
+}
+
 func SetDefinedClass(frame, class string) {
 	key := DefinedClass{frame: frame, class: class}
 	DefinedClassTable[key] = true
